@@ -238,11 +238,21 @@ def run_trace(trace_path, nshards=8, timeout=3000, module="TzRsTrace"):
             errl = [l for l in outp.splitlines() if "rror" in l][:15]
             raise ToolError(f"trace validation of {p} did not consume the trace ({done and done[0]} of {n}):\n" + "\n".join(errl) + "\n" + outp[-1500:])
         events += n
-        lines = None
-        for (idx, tag) in done[1]:
-            if lines is None:
-                lines = open(p).read().splitlines()
-            bad.append((off + idx - 1, tag, lines[idx - 1]))
+        badl, infol = done[1]
+        if badl:
+            lines = open(p).read().splitlines()
+            zinfo = {}
+            for (zi, t) in infol:
+                zinfo.setdefault(zi, []).append(t)
+            zone_at = []          # index (1-based) of the zone-setting event in force at each line
+            cur = 0
+            for i, ln in enumerate(lines, 1):
+                if '"op":"zone"' in ln or '"op":"tzif"' in ln or '"op":"resolve"' in ln:
+                    cur = i
+                zone_at.append(cur)
+            for (idx, tag) in badl:
+                zi = zone_at[idx - 1]
+                bad.append((off + idx - 1, tag, lines[idx - 1], lines[zi - 1] if zi and zi != idx else None, zinfo.get(zi, [])))
         os.remove(p)
     log(f"[trace] {os.path.basename(trace_path)}: {events} events on {len(shards)} JVMs, {len(bad)} bad, {time.time()-t0:.1f}s")
     return dict(events=events, states=states, bad=bad, seconds=round(time.time() - t0, 1))
@@ -264,6 +274,9 @@ class Result:
     def __init__(self, pid, tier, seed, level):
         self.pid, self.tier, self.seed, self.level = pid, tier, seed, level
         self.t0 = time.time()
+        import glob
+        for f in glob.glob(os.path.join(OUT, "violations", f"{pid}-*.json")):
+            os.remove(f)
         self.mc = []            # model-checking runs
         self.vectors = 0        # spec -> impl vectors replayed
         self.events = 0         # impl -> spec events validated
@@ -371,11 +384,11 @@ def run_pipeline(res, binary, name, gen_lines=None, vec_path=None, nshards=8, va
         if vec_path is None:
             res.events += tr["events"]
         res.trace_states += tr["states"]
-        for (idx, tag, line) in tr["bad"]:
+        for (idx, tag, line, zline, ztags) in tr["bad"]:
             e = json.loads(line)
             if tag == "generator-error":
                 raise ToolError(f"generator produced an unusable event: {line[:400]}")
-            res.violation(tag, strip(e), dict(index=idx))
+            res.violation(tag, strip(e), dict(index=idx, zone_tags=ztags, context=strip(json.loads(zline)) if zline else None))
     if len(res.samples) < 5:
         with open(outp) as f:
             first = f.readline()
